@@ -39,6 +39,24 @@ SETVALS = {
  'hash': ['','#','f','#f','##f','a b','`','\u00e4','%zz','\n#a','#\ta','# ','"<>','\x00'],
  'href': ['http://h/','https://u:p@h:444/p?q#f','file:///C:/x','non-spec:opaque','non-spec://h/p','','x','http://','//h','http://h:99999/','non-spec:/.//p','HTTP://H/%2e/','http://h/?a=1&b=2','http://a b/','\thttp://h/\n','non-spec:x  ','file://localhost/p','blob:http://h/'],
 }
+# structured start URLs: shape x query x fragment (null, empty-but-present, text; trailing spaces matter for opaque paths)
+SHAPES = ['http://h/p', 'http://u:p@h:81/a/b', 'https://h', 'file:///p', 'file://h/p', 'file:///C:/x', 'non-spec://h/p', 'non-spec://h',
+          'non-spec://u@h:1', 'non-spec:/p/q', 'non-spec:/.//p', 'non-spec://', 'non-spec:op', 'non-spec:op  ', 'non-spec:', 'blob:http://h/x', 'ws://h:81/']
+SQUERIES = ['', '?', '?q', '? ', '?a=1&b=2']
+SFRAGS = ['', '#', '#f', '# ']
+# key values per setter for the exhaustive single-call stream (empty, delimiter only, plain, one special case each)
+SETKEYS = {
+ 'protocol': ['', 'http', 'file', 'non-spec:', 'ws', 'x y'],
+ 'username': ['', 'u', 'a@b:c', '\u00e4'],
+ 'password': ['', 'p', ':@/'],
+ 'host': ['', 'h', 'h:81', 'h:', 'C:', 'localhost', '[::1]', 'a b', 'h:80', 'h:443/x'],
+ 'hostname': ['', 'h', 'h:81', 'C|', 'localhost', '1.2.3.4', 'h?x'],
+ 'port': ['', '8', '80', '443', '21', '65536', '008', 'x', '8x'],
+ 'pathname': ['', '/', 'a', '/a/../b', '//x', '/.//x', '/C|/..', '..', '?', '\\a'],
+ 'search': ['', '?', 'q', '?q', '? ', '#'],
+ 'hash': ['', '#', 'f', '#f', '# '],
+ 'href': ['non-spec:x  ?', 'http://h/?#', ''],
+}
 BOUNDARY = ['\u007f','\u0080','\u07ff','\u0800','\ud7ff','\ue000','\uffff','\U00010000','\U0010ffff','\ufffd','\u00e9','\u20ac','\U0001f4a9']
 # ill-formed code unit fragments per encoding
 BAD8 = [[0x80],[0xBF],[0xC0,0x80],[0xC1,0xBF],[0xC2],[0xE0,0x80,0x80],[0xE0,0x9F,0xBF],[0xE0,0xA0],[0xED,0xA0,0x80],[0xED,0xBF,0xBF],[0xEF,0xBF],[0xF0,0x80,0x80,0x80],[0xF0,0x8F,0xBF,0xBF],[0xF0,0x90,0x80],[0xF4,0x90,0x80,0x80],[0xF5,0x80,0x80,0x80],[0xFF],[0xFE],[0xF8,0x88,0x80,0x80,0x80],[0xE2,0x82],[0xE2],[0xF0,0x9F,0x92],[0xF0,0x9F],[0xF0],[0xC3,0xC3,0xA9],[0xE2,0x28,0xA1],[0xF1,0x80,0x80,0x41],[0xE2,0x0A,0x82,0xAC],[0xC3,0x09,0xA9],[0xF0,0x0D,0x9F,0x92,0xA9]]
@@ -68,6 +86,7 @@ def U(us):
 class Gen:
     def __init__(self, seed):
         self.r = random.Random(seed)
+        self.seed = seed
         self.lines = []
         self.stats = {}
         self.slotnames = {}   # generator-side guess of the param names currently in each slot's query (hit rate of name-based ops)
@@ -178,16 +197,21 @@ class Gen:
 
     def setval(self, setter):
         r = self.r.randrange(10)
+        if self.r.randrange(12) == 0: return ''   # the empty value is a special case of every setter
         if r < 6: v = self.pick(SETVALS[setter])
         elif r < 8: v = self.mutate(self.pick(SETVALS[setter]))
         elif r < 9: v = self.url_text()
         else: v = self.pick(SEGS + LABELS + BADHOST + RELS)
         return v
+    def start_url(self):
+        """structured start URL: shape x query (null / empty / text) x fragment (null / empty / text)"""
+        return self.pick(SHAPES) + self.pick(SQUERIES) + self.pick(SFRAGS)
     def s_set(self):
         """C03/C05/C08: setter histories over the start-URL classes"""
         self.emit('case')
         self.stat('case:set')
-        self.emit('parse 0 %s -' % self.arg(self.pick(STARTS) if self.r.randrange(5) else self.url_text()))
+        x = self.r.randrange(10)
+        self.emit('parse 0 %s -' % self.arg(self.url_text() if x < 2 else self.start_url() if x < 5 else self.pick(STARTS)))
         for _ in range(self.r.choice([1, 1, 2, 3, 4, 6, 12])):
             st = self.pick(SETTERS if self.r.randrange(8) else ['protocol', 'host', 'port', 'pathname'])
             self.stat('setter:' + st)
@@ -266,9 +290,19 @@ class Gen:
                 self.emit('parse %d %s s%d' % (a, self.arg(self.pick(RELS)), b))
             elif x < 85:
                 self.emit(self.sp_op(a))
-            elif x < 90:
+            elif x < 87:
                 self.emit('psp 0 %s' % self.pick(['new', 'ctor %s' % self.arg('a=1&b=2'), 'append %s %s' % (self.arg('k'), self.arg('v'))]))
                 self.emit('sp %d %s 0' % (a, self.pick(['assign', 'safea'])))
+            elif x < 90:
+                # sorted list of a URL receives an unsorted list (assignment / copy of the URL), then sort
+                self.stat('obj:transfer-then-sort')
+                self.emit('sp %d sort' % a)
+                if self.r.randrange(2):
+                    self.emit('psp 0 ctor %s' % self.arg(self.pick(['z=1&a=2', 'b=1&a=2&b=3']))); self.emit('sp %d %s 0' % (a, self.pick(['assign', 'safea'])))
+                else:
+                    self.emit('parse %d %s -' % (b, self.arg('http://h/?z=1&a=2&m=3'))); self.emit('sp %d get' % b); self.emit('obj %s %d %d' % (self.pick(['copya', 'safea']), a, b))
+                    self.emit('parse %d %s -' % (b, self.arg(self.pick(STARTS))))
+                self.emit('sp %d sort' % a); self.emit('dump %d' % a)
             elif x < 95:
                 self.emit('psp 1 fromurl %d' % a)
                 self.emit('psp 1 append %s %s' % (self.arg('det'), self.arg('ached')))
@@ -302,6 +336,12 @@ class Gen:
             self.emit('psp 0 sort')
         if self.r.randrange(3) == 0:
             self.emit('psp 1 copy 0'); self.emit(self.sp_op(1, 'psp')); self.emit('psp 0 size')
+        if self.r.randrange(5) == 0:
+            # a list known to be sorted receives an UNSORTED list from another object, then is sorted: every
+            # cached fact about the old list must have gone with it
+            self.stat('psp:transfer-then-sort')
+            self.emit('psp 1 ctor %s' % self.arg(self.pick(['z=1&a=2', 'b=1&a=2&b=3&a=4', 'y=&x=&\U00010000=1&\uffff=2'])))
+            self.emit('psp 0 copy 1'); self.emit('psp 0 sort')
 
     def s_form(self):
         """C15: byte strings for the form parser, raw and escaped ill-formed UTF-8"""
@@ -384,7 +424,9 @@ class Gen:
         elif x < 65: self.emit('pdec %d %s' % (e, U(noisy())))
         elif x < 68: self.emit('host %d %s' % (e, U(units('a', e) + noisy())))
         elif x < 72:
-            h = self.pick(IPV6 + IPV4)
+            # hosts: addresses, and labels where a non-ASCII unit directly follows an ASCII-significant one
+            # (signedness / width of the comparison of the following unit: '<' U+0338 etc.)
+            h = self.pick(IPV6 + IPV4) if self.r.randrange(2) else '.'.join(self.pick(LABELS) for _ in range(self.r.randrange(1, 3)))
             if self.r.randrange(2): self.emit('host %d %s' % (e, U(units(h, e))))
             else: self.emit('parse 0 %d %s -' % (e, U(units('http://' + h + '/', e))))
         elif x < 80: self.emit('utf %d %s' % (e, U(noisy())))
@@ -392,6 +434,21 @@ class Gen:
         elif x < 94 and e != 8: self.emit('psp 0 append %d %s %d %s' % (e, U(noisy()), e, U(noisy())))
         else: self.emit('frompath posix %d %s' % (e, U(units('/', e) + noisy())))
 
+    def s_set_exh(self, k, stride=None):
+        """C03/C05/C08: EVERY structured start URL x EVERY key value of every setter, one call each, then the call
+        that most often exposes stale bookkeeping (a second setter on a later part)"""
+        starts = [a + b + c for a in SHAPES for b in SQUERIES for c in SFRAGS]
+        calls = [(st, v) for st in SETTERS for v in SETKEYS[st]]
+        # stride n: every n-th combination, the offset rotating with the seed (quick tier)
+        stride = stride or 1
+        k = k * stride + self.seed % stride
+        if k >= len(starts) * len(calls): return False
+        u = starts[k // len(calls)]; st, v = calls[k % len(calls)]
+        self.emit('case')
+        self.emit('parse 0 8 %s -' % U(units(u, 8)))
+        self.emit('set 0 %s 8 %s' % (st, U(units(v, 8))))
+        self.emit('set 0 %s 8 %s' % (('search', U(units('z', 8))) if k % 2 else ('hash', U(units('z', 8)))))
+        return True
     def s_enc_exh(self, k):
         """C10: all byte strings of length <= 3 over a 20-byte alphabet covering every lead/trail class"""
         alpha = [0x41, 0x7F, 0x80, 0x8F, 0x90, 0x9F, 0xA0, 0xBF, 0xC1, 0xC2, 0xDF, 0xE0, 0xE1, 0xED, 0xEF, 0xF0, 0xF1, 0xF4, 0xF5, 0xFF]
@@ -590,7 +647,7 @@ STREAMS = {
 EXH = {
     'hostascii': lambda g, k, a: g.s_hostascii(k), 'encexh': lambda g, k, a: g.s_enc_exh(k),
     'ipv4exh': lambda g, k, a: g.s_ipv4_exh(k, a or 4), 'ipv6exh': lambda g, k, a: g.s_ipv6_exh(k, a or 5),
-    'pctexh': lambda g, k, a: g.s_pct_exh(k), 'member': lambda g, k, a: g.s_member(k),
+    'pctexh': lambda g, k, a: g.s_pct_exh(k), 'member': lambda g, k, a: g.s_member(k), 'setexh': lambda g, k, a: g.s_set_exh(k, a),
     'ipv6serexh': lambda g, k, a: (g.s_ipv6ser(k), k < 256 * 5 - 1)[1],
 }
 
